@@ -108,8 +108,14 @@ pub fn run(out: &mut Out, seed: u64, tier: &str) {
     let mut real: Vec<crate::gen::Mol> = crate::gen::library();
     for zs in [vec![1usize, 6, 6, 1], vec![1, 6, 7], vec![8, 6, 8], vec![1, 6, 6, 6, 6, 1], vec![6, 6, 6, 6], vec![17, 6, 6, 6, 7]] { real.push(crate::gen::linear_chain(&zs, 0.9)); }
     for _ in 0..(if tier == "thorough" { 300 } else { 40 }) { real.push(crate::gen::random_mol(&mut rng)); }
+    // extended molecules and far-apart fragments: every unordered pair is a bond or a non-bonded pair however far apart the atoms are
+    real.push(crate::gen::alkane(12)); real.push(crate::gen::alkane(if tier == "thorough" { 24 } else { 16 }));
+    for sep in [13.0, 30.0, 250.0, 1.0e4] {
+        let a = real[rng.below(8)].clone(); let b = real[rng.below(8)].clone();
+        real.push(crate::gen::union(&a, &crate::gen::moved(&b, &crate::gen::random_rotation(&mut rng), [sep, 0.3 * sep, -0.2 * sep])));
+    }
     for m in real.iter() {
-        if m.n() > 24 || m.min_distance() < 0.5 { continue; }
+        if m.n() > 80 || m.min_distance() < 0.5 { continue; }
         let mol = match catch(|| m.build()) { Some(x) => x, None => continue };
         let got = connectivity(&mol);
         let bonds = got.bonds.clone();
